@@ -113,9 +113,14 @@ type Input struct {
 	// Every call is compared with the model of an independent call: the strategies keep nothing
 	// from one call to the next.  Gap: fake ns between the previous call's return and this call
 	// (0: back to back, the previous call's stragglers are still running).
-	Prior []Input  `json:"prior,omitempty"`
-	Gap   int64    `json:"gap,omitempty"`
-	Tags  []string `json:"tags,omitempty"`
+	Prior []Input `json:"prior,omitempty"`
+	Gap   int64   `json:"gap,omitempty"`
+	// Deadline: the CALLER's context carries a deadline this many fake ns after the call (0: none).
+	// Only deadlines later than Timeout are used: the strategy's own configured timeout is then the
+	// binding one (context.WithTimeout of a context with a later deadline expires at the timeout), so
+	// the model of the call is that of a call without caller deadline.
+	Deadline int64    `json:"deadline,omitempty"`
+	Tags     []string `json:"tags,omitempty"`
 }
 
 type Observed struct {
@@ -864,6 +869,12 @@ func runCase(t *testing.T, in *Input) (all []Observed) {
 			return
 		}
 		rest := time.Duration(in.Timeout)
+		var cancels []context.CancelFunc
+		defer func() {
+			for _, cancel := range cancels {
+				cancel()
+			}
+		}()
 		for k, c := range seq {
 			if k > 0 && c.Gap > 0 {
 				time.Sleep(time.Duration(c.Gap))
@@ -872,7 +883,17 @@ func runCase(t *testing.T, in *Input) (all []Observed) {
 				s.cur.Store(int32(k))
 			}
 			ct.SetSlot(uint64(int64(c.Slot) + c.NowOff))
-			all[k] = invoke(context.WithValue(ctx, callKey{}, int32(k)), c)
+			cctx := context.WithValue(ctx, callKey{}, int32(k))
+			if c.Deadline > 0 {
+				// the caller works to a deadline of its own (a duty's deadline, a request budget)
+				var cancel context.CancelFunc
+				cctx, cancel = context.WithDeadline(cctx, time.Now().Add(time.Duration(c.Deadline)))
+				cancels = append(cancels, cancel)
+				if d := time.Duration(c.Deadline); d > rest {
+					rest = d
+				}
+			}
+			all[k] = invoke(cctx, c)
 			made = k + 1
 			for _, p := range c.Provs {
 				if d := time.Duration(p.T); d > rest {
@@ -1601,6 +1622,34 @@ func gen1(r *Rand, prev *Input) Input {
 	}
 	if prev != nil {
 		in.Threshold = prev.Threshold
+	}
+	// family: the caller's context carries a deadline of its own, LATER than the strategy's configured
+	// timeout (the duty's deadline, a request budget of the calling service).  The configured timeout
+	// still binds.  In half of these cases no node that honours its context answers within the
+	// timeout: the nodes are silent or slow (they would answer between the timeout and the caller's
+	// deadline if they were left the time), so the call must end in an error AT the timeout.
+	if r.Chance(1, 4) {
+		in.Deadline = T + []int64{1, ms, S, T, 2 * T, 9 * T}[r.Intn(6)]
+		tags["caller-deadline"] = true
+		if r.Chance(1, 2) && !minority {
+			D := in.Deadline
+			late := []int64{T + 1, T + ms, T + (D-T)/2, D - 1, D, D + ms}
+			for i := range in.Provs {
+				p := &in.Provs[i]
+				if p.Beh == "never" || p.T > T {
+					continue
+				}
+				if r.Chance(1, 4) && !p.Deaf {
+					p.Beh, p.T, p.Err, p.Val = "never", 0, "", 0
+					continue
+				}
+				if p.Deaf && r.Chance(1, 2) {
+					continue // a node that ignores its context still answers in time
+				}
+				p.T = late[r.Intn(len(late))]
+			}
+			tags["slow-nodes"] = true
+		}
 	}
 	if tp == "first" {
 		limitFirstTies(&in)
